@@ -59,6 +59,7 @@ type Session struct {
 	wsconn websocket.Conn
 
 	authMode auth.Mode
+	httpAuth bool // WebSocket session whose upgrade request was authenticated (token) by the HTTP side
 	nonce    string
 	user     *auth.User
 
@@ -104,7 +105,10 @@ func newSession(svr *Server, conn net.Conn) *Session {
 	}
 
 	if wsc, ok := conn.(websocket.Conn); ok { // 如果是WebSocket，有http进行验证
+		// no RTSP digest on top of the HTTP token check, but the session keeps acting
+		// as the user the HTTP side verified: that user's rights decide every request
 		session.authMode = auth.NoneAuth
+		session.httpAuth = config.Auth()
 		session.wsconn = wsc
 		session.path = wsc.Path()
 		session.user = auth.Get(wsc.Username())
@@ -480,7 +484,7 @@ func (s *Session) checkPermission(right auth.AccessRight) bool {
 }
 
 func (s *Session) checkPermissionOn(path string, right auth.AccessRight) bool {
-	if s.authMode == auth.NoneAuth {
+	if s.authMode == auth.NoneAuth && !s.httpAuth {
 		return true
 	}
 
@@ -492,6 +496,16 @@ func (s *Session) checkPermissionOn(path string, right auth.AccessRight) bool {
 }
 
 func (s *Session) checkAuth(r *Request) (user *auth.User, err error) {
+	if s.httpAuth {
+		// WebSocket: the caller is the user of the upgrade request's token, looked up
+		// again so that a deleted account stops working
+		user := auth.Get(s.wsconn.Username())
+		if user == nil {
+			return nil, errors.New("user not exist")
+		}
+		return user, nil
+	}
+
 	switch s.authMode {
 	case auth.BasicAuth:
 		username, password, has := r.BasicAuth()
